@@ -1,6 +1,6 @@
 (* Extraction of the C20 site models. ExtrOcamlBasic only; nat / N stay inductive. *)
 Require Extraction.
 Require Import ExtrOcamlBasic.
-From Atlas Require Import Base.Bytes Plan.SortModel Dir.DirModel Det.OrderModel Det.QualifyModel.
+From Atlas Require Import Base.Bytes Plan.SortModel Dir.DirModel Det.OrderModel Det.QualifyModel Det.QualifyClosure.
 Extraction Language OCaml.
-Extraction "model.ml" dependencies DetachCycles_over CheckChangesScope_names ChecksumText files_of lookup byKeys toAttrs EvalOptions_files as_extra_attrs as_extra_children QualifyObjects_over byLabel QualifyReferences_ref.
+Extraction "model.ml" dependencies DetachCycles_over CheckChangesScope_names ChecksumText files_of lookup byKeys toAttrs EvalOptions_files as_extra_attrs as_extra_children QualifyObjects_over QualifyObjects_closed_over byLabel QualifyReferences_ref.
